@@ -46,8 +46,75 @@ def new_fs():
 
 def make_options(fs, src_path, **kw):
   m = mods()
-  kw.setdefault("open_function", fs.open)
+  if not getattr(fs, "real", False):
+    kw.setdefault("open_function", fs.open)
   return m["config"].Options.create(src_path, **kw)
+
+
+def installed(fs):
+  """Routes pytype's I/O seams to `fs`; a RealFS needs no routing (pytype then
+  uses its defaults: builtin open, os.path)."""
+  if getattr(fs, "real", False):
+    return contextlib.nullcontext(fs)
+  return simfs.Installed(fs, runner=False)
+
+
+class _RealFiles:
+  """`fs.files` of a RealFS: path -> bytes, read from disk."""
+
+  def get(self, path, default=None):
+    try:
+      with open(path, "rb") as f:
+        return f.read()
+    except OSError:
+      return default
+
+  def __getitem__(self, path):
+    with open(path, "rb") as f:
+      return f.read()
+
+  def __contains__(self, path):
+    return os.path.isfile(path)
+
+
+class RealFS:
+  """The same simulator-side interface as SimFS over a real directory tree
+  (a private tmpfs). pytype itself uses builtin open / os.path on it, i.e. the
+  code paths a deployment takes; file mtimes are set from the simulated clock
+  by `stamp()`."""
+
+  real = True
+  open = staticmethod(open)
+
+  def __init__(self, root):
+    self.root = root
+    self.files = _RealFiles()
+    self.logging = False
+    self.fault = None
+
+  def makedirs(self, path, exist_ok=True):
+    os.makedirs(path, exist_ok=True)
+
+  def put(self, path, data):
+    os.makedirs(os.path.dirname(path), exist_ok=True)
+    with open(path, "wb") as f:
+      f.write(data.encode("utf8") if isinstance(data, str) else data)
+
+  def get_text(self, path):
+    with open(path, "rb") as f:
+      return f.read().decode("utf8")
+
+  def has(self, path):
+    return os.path.isfile(path)
+
+  def stamp(self, t):
+    """Every file's mtime/atime := simulated time (whole run is one clock)."""
+    for d, _, names in os.walk(self.root):
+      for n in names:
+        try:
+          os.utime(os.path.join(d, n), (t, t))
+        except OSError:
+          pass
 
 
 def render_errors(errorlog):
@@ -102,7 +169,7 @@ def run_step(fs, src_path, *, module_name, output=None, pickle=False,
   if csv and report_errors and not api and loader is None:
     csv_path = (output or "/sim/out") + ".errors.csv"
     kw["output_errors_csv"] = csv_path
-  with simfs.Installed(fs, runner=False), quiet() as err:
+  with installed(fs), quiet() as err:
     opts = make_options(fs, src_path, **kw)
     resp = {"rc": None, "pyi": None, "errors": None, "pickle": None,
             "csv": None, "stderr": None, "crash_msg": None}
@@ -151,6 +218,6 @@ def run_step(fs, src_path, *, module_name, output=None, pickle=False,
 
 def make_loader(fs, **kw):
   m = mods()
-  with simfs.Installed(fs, runner=False):
+  with installed(fs):
     opts = make_options(fs, kw.pop("src_path", "/sim/dummy.py"), **kw)
     return m["load_pytd"].create_loader(opts), opts
